@@ -2,6 +2,7 @@ import NpsVerif.Props.C17A
 import NpsVerif.Props.C17B
 import NpsVerif.Props.C17C
 import NpsVerif.Props.C17D
+import NpsVerif.Props.C17E
 /-! Property C17: theorems in `Props/C17A.lean` (constructors, row selection, elements, integer columns,
 row reductions, ufuncs), `Props/C17B.lean` (ravel, concatenate, column counts, column sums) and
 `Props/C17C.lean` (column ranges on the ragged variant). -/
